@@ -49,6 +49,8 @@ def mk_engine(fb, inline_depth=6, no_inline=None, **kw):
         if no_inline and no_inline(b):
             return False
         return True
+    # a private trait of the analysed crate with a single implementation in the shipped build is looked through
+    kw.setdefault('unique_impls', True)
     return psi.Engine(fb, inline_depth=inline_depth, summaries=SUMMARIES, inline_filter=flt, **kw)
 
 
